@@ -146,15 +146,17 @@ Theorem C17_time_add_sub_inverse :
 Proof. exact time_add_sub_inverse. Qed.
 
 (* ---- (6) duration_trunc ------------------------------------------------------------------------------------ *)
-(* month-free d > 0: computed at nanosecond resolution as d * floor(x / d), stored at the unit *)
+(* month-free d > 0: computed at nanosecond resolution as d * floor(x / d), stored at the unit.
+   `y <> NaT`: at ns resolution a result below the i64 range is NaT (chrono -> DateTime<Nanosecond> is total
+   since repo commit 3cb9707; it used to panic) *)
 Theorem C17_trunc_monthfree :
-  forall u x d y, x <> NaT -> td_months d = 0 -> 0 < td_ns d -> dt_trunc u x d = Ok y ->
+  forall u x d y, x <> NaT -> td_months d = 0 -> 0 < td_ns d -> dt_trunc u x d = Ok y -> y <> NaT ->
     y = (td_ns d * (instant_ns u x / td_ns d)) / unit_ns u.
 Proof. exact dt_trunc_monthfree. Qed.
 (* hence, for d a whole number of units (always at ns resolution): the greatest multiple of d not after x *)
 Theorem C17_trunc_greatest_multiple :
   forall u x d y, x <> NaT -> td_months d = 0 -> 0 < td_ns d -> td_ns d mod unit_ns u = 0 ->
-    dt_trunc u x d = Ok y ->
+    dt_trunc u x d = Ok y -> y <> NaT ->
     instant_ns u y = td_ns d * (instant_ns u x / td_ns d)
     /\ instant_ns u y <= instant_ns u x < instant_ns u y + td_ns d.
 Proof. exact dt_trunc_monthfree_multiple. Qed.
@@ -191,6 +193,9 @@ Proof. vm_compute. auto. Qed.
 Example C17_ex_time :
   time_from_hms_nano 23 59 59 999999999 = Ok 86399999999999 /\ time_hour 86399999999999 = Ok 23
   /\ time_add 0 (mktd 0 (-1)) = Ok (-1) /\ time_add 0 (mktd 1 0) = Panic OtherPanic.
+Proof. vm_compute. auto. Qed.
+Example C17_ex_out_of_range_is_nat :
+  dt_add Nano i64_max (mktd 0 1) = Ok NaT /\ dt_trunc Nano (-9223372036854775807) (mktd 0 1000) = Ok NaT.
 Proof. vm_compute. auto. Qed.
 Example C17_ex_trunc :
   (* 2023-05-15 14:30:45 UTC = 1684161045 *)
